@@ -1529,6 +1529,17 @@ variant('b-drain-without-none-test', ['C11'], RB,
         "        if frame.sent_future is not None and not frame.sent_future.done():\n            frame.sent_future.set_exception(RSocketProtocolError(ErrorCode.CONNECTION_ERROR",
         "        if not frame.sent_future.done():\n            frame.sent_future.set_exception(RSocketProtocolError(ErrorCode.CONNECTION_ERROR",
         ('C11.g', '_fail_unsent_frames'))
+variant('b-aiohttp-server-send-dropped', ['C01'], AIO,
+        "    async def send_frame(self, frame: Frame):\n        with wrap_transport_exception():\n            await self._ws.send_bytes(frame.serialize())\n\n    async def close(self):\n        await self._ws.close()",
+        "    async def send_frame(self, frame: Frame):\n        with wrap_transport_exception():\n            frame.serialize()\n\n    async def close(self):\n        await self._ws.close()",
+        ('C01.i', 'TransportAioHttpWebsocket.send_frame'))
+variant('b-websockets-drain-loop-removed', ['C01'], 'rsocket/transports/websockets_transport.py',
+        "            frame = await self._outgoing_frame_queue.get()\n            await websocket.send(frame.serialize())",
+        "            frame = await self._outgoing_frame_queue.get()",
+        ('C01.i', 'WebsocketsTransport.send_frame'))
+variant('b-aiohttp-server-feeder-not-started', ['C01'], AIO,
+        "        await transport.handle_incoming_ws_messages()\n        return ws", "        return ws",
+        ('C01.i', 'the feeder is started'))
 variant('b-send-error-noop', ['C12'], RB,
         "        self.send_frame(exception_to_error_frame(stream_id, exception))",
         "        logger().error('error on stream %s: %s', stream_id, exception)", ('C12.b', 'RSocketBase.send_error'))
